@@ -157,6 +157,85 @@ theorem run_eq_solo (S : Sys σ α β ca cb) {P : σ → Prop} {Rel : σ → σ 
     rw [ih.1]
     exact soloA_rel S h _ _ _ _ (h.b_inv s y c hp) hp (h.b_stays s y c hp)
 
+/-! ### any number of builders -/
+
+variable {c : Type}
+
+structure IsolatedRelN (S : SysN σ α c) (P : σ → Prop) (Rel : σ → σ → Prop) : Prop where
+  symm : ∀ s s', Rel s s' → Rel s' s
+  trans : ∀ s s' s'', Rel s s' → Rel s' s'' → Rel s s''
+  inv : ∀ s x c, P s → P (S.step s x c).1
+  loc : ∀ s s' x c, P s → P s' → Rel s s' → (S.step s x c).2 = (S.step s' x c).2
+  stays : ∀ s x c, P s → Rel (S.step s x c).1 s
+
+theorem soloN_rel (S : SysN σ α c) {P : σ → Prop} {Rel : σ → σ → Prop} (h : IsolatedRelN S P Rel) :
+    ∀ cs s s' x, P s → P s' → Rel s s' → (soloN S cs (s, x)).2 = (soloN S cs (s', x)).2
+  | [], _, _, _, _, _, _ => rfl
+  | c :: cs, s, s', x, hp, hp', hr => by
+    simp only [soloN]
+    rw [show S.step s x c = ((S.step s x c).1, (S.step s x c).2) from rfl,
+        show S.step s' x c = ((S.step s' x c).1, (S.step s' x c).2) from rfl,
+        h.loc s s' x c hp hp' hr]
+    refine soloN_rel S h cs _ _ _ (h.inv s x c hp) (h.inv s' x c hp') ?_
+    exact h.trans _ _ _ (h.stays s x c hp) (h.trans _ _ _ hr (h.symm _ _ (h.stays s' x c hp')))
+
+/-- every interleaving of any number of builders leaves each builder with the state of its solo run -/
+theorem runN_eq_solo (S : SysN σ α c) {P : σ → Prop} {Rel : σ → σ → Prop} (h : IsolatedRelN S P Rel) :
+    ∀ (es : List (Nat × c)) (s : σ) (f : Nat → α) (i : Nat), P s →
+      (runN S es (s, f)).2 i = (soloN S (projN i es) (s, f i)).2
+  | [], _, _, _, _ => rfl
+  | (j, x) :: es, s, f, i, hp => by
+    have ih := runN_eq_solo S h es (S.step s (f j) x).1 (updN f j (S.step s (f j) x).2) i (h.inv s (f j) x hp)
+    simp only [runN, projN]
+    rw [ih]
+    by_cases hji : j = i
+    · subst hji
+      simp only [updN, ↓reduceIte, soloN]
+    · have hij : ¬ i = j := fun e => hji e.symm
+      simp only [updN, hij, hji, ↓reduceIte]
+      exact soloN_rel S h _ _ _ _ (h.inv s (f j) x hp) hp (h.stays s (f j) x hp)
+
+/-! ### sub-tables -/
+
+theorem mem_without {t : Table} {drop : List Nat} {e : EntrySummary} :
+    e ∈ (t.without drop).entries ↔ e ∈ t.entries ∧ e.name ∉ drop := by
+  simp [Table.without, List.mem_filter]
+
+theorem written_without_subset {t : Table} {drop : List Nat} {v : Nat} (h : v ∈ (t.without drop).written) :
+    v ∈ t.written := by
+  obtain ⟨e, he, hv⟩ := mem_written.1 h
+  exact mem_written.2 ⟨e, (mem_without.1 he).1, hv⟩
+
+theorem mem_idsOf_iff {names : Array String} {l : List String} {v : Nat} :
+    v ∈ idsOf names l ↔ ∃ s, names[v]? = some s ∧ s ∈ l := by
+  constructor
+  · intro h
+    simp only [idsOf, List.mem_filter, List.mem_range] at h
+    cases hs : names[v]? with
+    | none => simp [hs] at h
+    | some s => exact ⟨s, rfl, by simpa [hs] using h.2⟩
+  · rintro ⟨s, hs, hl⟩
+    have hlt : v < names.size := by
+      rcases Nat.lt_or_ge v names.size with h' | h'
+      · exact h'
+      · rw [Array.getElem?_eq_none h'] at hs; cases hs
+    simp only [idsOf, List.mem_filter, List.mem_range]
+    exact ⟨hlt, by rw [hs]; simpa using hl⟩
+
+/-- `envOnly` read logically: an entry outside the configuration entries writes no configuration variable -/
+theorem envOnly_spec {t : Table} {names : Array String} {env : List String} {envEntries : List Nat}
+    (h : t.envOnly names env envEntries = true)
+    {e : EntrySummary} (he : e ∈ t.entries) (hn : e.name ∉ envEntries) : ∀ v ∈ e.writes, v ∉ idsOf names env := by
+  have := List.all_eq_true.1 h e he
+  simp only [Bool.or_eq_true, List.contains_eq_mem, decide_eq_true_eq, List.all_eq_true] at this
+  rcases this with h1 | h2
+  · exact absurd h1 hn
+  · intro v hv hm
+    obtain ⟨s, hs, hl⟩ := mem_idsOf_iff.1 hm
+    have := h2 v hv
+    rw [hs] at this
+    simp [hl] at this
+
 /-- the executable `merges` enumerates interleavings only -/
 theorem merges_sound : ∀ (xs : List ca) (ys : List cb) (es : List (Ev ca cb)),
     es ∈ merges xs ys → IsInterleaving es xs ys
